@@ -28,6 +28,9 @@ CARRIERS = {
     "lrd_def_spaces": (_t("# Spaces\n\n[ foo ]: /url\n[bar]: http://example.com/very/long/path\n\ntext\n"), "lrd"),
     "lrd_use_spaces": (_t("# Uses\n\n[ foo ] and [ bar ][] and ![ foo ]\n"), "lrd"),
     "lrd_use_image": (_t("# Uses\n\n![foo] and ![][bar]\n"), "lrd"),
+    "lrd_quote_unfinished": (_t("> [foo]:\n> /url \"title\nbar\n"), "lrd"),
+    "lrd_list_unfinished": (_t("- [foo]: /url\n  \"title\n- bar\n"), "lrd"),
+    "lrd_quote_nested": (_t("> > [foo]:\n> /url\n"), "lrd"),
     "lrd_in_quote": (_t("> [foo]: /quoted\n>\n> [foo]\n"), "lrd"),
     # --- headings -----------------------------------------------------------
     "h_dup_a": (_t("# Alpha\n\n## Same\n\ntext\n"), "heading"),
@@ -39,6 +42,8 @@ CARRIERS = {
     "h_starts_h3": (_t("### Third\n\ntext\n"), "heading"),
     "h_skip": (_t("# Top\n\n### Skipped\n"), "heading"),
     "h_setext": (_t("Title\n=====\n\nSub\n---\n\ntext\n"), "heading"),
+    "h_setext_indented": (_t("# Title\n\nab\n   ---\ntext\n"), "heading"),
+    "h_setext_indented_punct": (_t("# Title\n\nab.\n  ======\n\nab.\n   ---\n"), "heading"),
     "h_atx": (_t("# Title\n\n## Sub\n\ntext\n"), "heading"),
     "h_atx_closed": (_t("# Title #\n\n## Sub ##\n\ntext\n"), "heading"),
     "h_no_blank_after_eof": (_t("text\n\n## Heading"), "heading"),
@@ -69,6 +74,8 @@ CARRIERS = {
     "fence_tilde": (_t("# T\n\n~~~text\ncode\n~~~\n"), "fence"),
     "fence_back": (_t("# T\n\n```text\ncode\n```\n"), "fence"),
     "fence_nolang": (_t("# T\n\n```\ncode\n```\n"), "fence"),
+    "fence_first_line": (_t("```text\ncode\n```\n\ntext\n"), "fence"),
+    "fence_first_line_tilde": (_t("~~~\ncode\n~~~\n"), "fence"),
     "fence_no_blank": (_t("# T\n\ntext\n```text\ncode\n```\ntext\n"), "fence"),
     "code_indented": (_t("# T\n\ntext\n\n    indented code\n\ntext\n"), "fence"),
     "code_dollar": (_t("# T\n\n```text\n$ ls\n$ pwd\n```\n"), "fence"),
